@@ -153,7 +153,8 @@ const KS: [(usize, usize); 7] = [(1, 1), (1, 2), (1, 4), (2, 2), (2, 8), (3, 3),
 }
 
 #[test] fn w__hybrid__budget_exhaustion_at_any_moment_is_flagged_not_guessed() {
-    for (fi, f) in formulas().iter().enumerate().filter(|(i, _)| i % 3 == 0) {
+    let thorough = std::env::var("VERIF_TIER").map_or(false, |v| v == "thorough");
+    for (fi, f) in formulas().iter().enumerate().filter(|(i, _)| thorough || i % 3 == 0) {
         let probs = &PROBSETS[0];
         let (store, seeds, root) = fixture(f, probs);
         let truth = brute_force(&store, &seeds, root);
